@@ -120,6 +120,8 @@ func Scalars() []Named {
 		N("str-0", "0"), N("str-1", "1"), N("str-num", "12.5"), N("str--3", "-3"), N("str-1e3", "1e3"), N("str-sp", " 7 "), N("str-hex", "0x10"), N("str-inf", "Inf"), N("str-nan", "NaN"),
 		N("str-html", "<b>&\"'</b>"),
 		N("dec", decimal.NewFromFloat(2.5)), N("dec0", decimal.Zero), N("dec-neg", decimal.NewFromInt(-4)),
+		N("defined bool true", NamedBool(true)), N("defined bool false", NamedBool(false)), N("defined string", KeyStr("text")), N("defined numeric string", KeyStr("12.5")), N("defined empty string", KeyStr("")),
+		N("defined int", KeyInt(42)), N("defined float64", NamedF64(2.5)), N("defined float32", NamedF32(0.5)),
 		N("stringer", ValStringer{"vs"}), N("stringer-empty", ValStringer{""}), N("stringer-num", ValStringer{"8"}), N("ptr-stringer", &PtrStringer{"ps"}), N("ptr-to-valstringer", &ValStringer{"pvs"}),
 		N("number", ValNumber{2.25}), N("number0", ValNumber{0}), N("ptr-number", &PtrNumber{3}), N("boolean-t", ValBoolean{true}), N("boolean-f", ValBoolean{false}), N("ptr-boolean", &PtrBoolean{true}),
 		N("nilptr-valstringer", nilPtrStr), N("nilptr-ptrstringer", nilPtrPS), N("nilptr-number", nilPtrNum), N("nilptr-boolean", nilPtrBool), N("nilptr-int", nilPtrInt), N("nilptr-thing", nilPtrThing),
@@ -159,6 +161,9 @@ func Containers() []Named {
 		N("nil *[]int", nilPtrSlice), N("nil *map", nilPtrMap), N("nil *Thing", nilPtrThing),
 		N("string", "hello"), N("int", 5), N("nil", nil), N("bool", true), N("func", func() int { return 1 }), N("chan", make(chan int)),
 		N("safe-slice", stick.NewSafeValue([]int{1, 2}, "html")),
+		N("local T #1", localT1()), N("local T #2", localT2()), N("*local T #3", localT3()),
+		N("map[KeyStr]int", map[KeyStr]int{"a": 1, "1": 2, "true": 3, "1.5": 4}), N("map[KeyInt]string", map[KeyInt]string{1: "one", 0: "zero"}), N("map[KeyStr]int nil", map[KeyStr]int(nil)),
+		N("NamedSlice", NamedSlice{5, 6}), N("NamedMap", NamedMap{"a": 1}), N("[]KeyStr", []KeyStr{"x", "y"}),
 	}
 }
 
@@ -169,7 +174,7 @@ func Keys() []Named {
 		N("'a'", "a"), N("'k'", "k"), N("'1'", "1"), N("'0'", "0"), N("'Name'", "Name"), N("'hidden'", "hidden"), N("'ValueMethod'", "ValueMethod"), N("'PtrMethod'", "PtrMethod"),
 		N("'Add'", "Add"), N("'Variadic'", "Variadic"), N("'Join'", "Join"), N("'Fmt'", "Fmt"), N("'Two'", "Two"), N("'Nothing'", "Nothing"), N("'NilFunc'", "NilFunc"), N("'Fn'", "Fn"), N("'TakesPtr'", "TakesPtr"),
 		N("'TakesIface'", "TakesIface"), N("'TakesFloat'", "TakesFloat"), N("'TakesSlice'", "TakesSlice"), N("'Concat'", "Concat"), N("'hiddenMethod'", "hiddenMethod"), N("'missing'", "missing"), N("''", ""),
-		N("'Items'", "Items"), N("'Inner'", "Inner"), N("'Any'", "Any"), N("'Attrs'", "Attrs"),
+		N("'Items'", "Items"), N("'Inner'", "Inner"), N("'Any'", "Any"), N("'Attrs'", "Attrs"), N("'A'", "A"), N("'B'", "B"), N("'C'", "C"), N("KeyStr('a')", KeyStr("a")), N("KeyInt(1)", KeyInt(1)), N("'true'", "true"),
 		// strings that strconv.ParseFloat accepts but that are no usable index
 		N("'NaN'", "NaN"), N("'nan'", "nan"), N("'Inf'", "Inf"), N("'-Inf'", "-Inf"), N("'+Infinity'", "+Infinity"), N("'1e400'", "1e400"), N("'0x1'", "0x1"), N("'0x1p-2'", "0x1p-2"),
 		N("'1e0'", "1e0"), N("'1.0'", "1.0"), N("' 1'", " 1"), N("'-0'", "-0"), N("'1_0'", "1_0"),
@@ -203,3 +208,39 @@ var KindText string
 func (KindInt) String() string   { return KindText }
 func (KindBool) String() string  { return KindText }
 func (KindFloat) String() string { return KindText }
+
+// Distinct types that print alike (same package, same name): whatever is remembered about one of them
+// must not be applied to the other.
+func localT1() interface{} {
+	type T struct {
+		A int
+		B string
+	}
+	return T{1, "b1"}
+}
+
+func localT2() interface{} {
+	type T struct {
+		B string
+		C bool
+		A int
+	}
+	return T{"b2", true, 2}
+}
+
+func localT3() interface{} {
+	type T struct{ C float64 }
+	return &T{3.5}
+}
+
+// Named key, slice and map types.
+type (
+	KeyStr     string
+	KeyInt     int
+	NamedF64   float64
+	NamedF32   float32
+	NamedU8    uint8
+	NamedBool  bool
+	NamedSlice []int
+	NamedMap   map[string]int
+)
